@@ -21,7 +21,6 @@ KF_KINDS = {
     "init-false": "schema-init-false-field",
     "union-pack": "union-speculative-packer",
     "nt-ovc": "schema-nt-override-in-containers",
-    "strategy-origin": "schema-strategy-origin-key",
     "ovr-nullable": "schema-overridden-nullable",
 }
 
@@ -136,7 +135,8 @@ class Sites:
         if k in ("list", "deque"):
             return type(v).__name__ == k
         if k == "seq":
-            return isinstance(v, (list, tuple, str))
+            # a str is a Sequence[str] only
+            return isinstance(v, (list, tuple)) or (isinstance(v, str) and t[1] == ("str",))
         if k in ("tuplevar", "tuple"):
             return type(v) is tuple
         if k in ("set", "frozenset"):
@@ -572,7 +572,9 @@ FIXED_CASES = [
     ("strategy by origin key",
      "def _ser(v) -> str:\n    return ','.join(map(str, v))\n@dataclass\nclass St(DataClassDictMixin):\n    x: List[int]\n"
      "    y: List[int] = field(default_factory=list, metadata={'serialize': _ser})\n"
-     "    class Config(BaseConfig):\n        serialization_strategy = {list: {'serialize': _ser}}\n", "St", ["St([1, 2])"]),
+     "    z: Annotated[Dict[str, int], 'm'] = field(default_factory=dict)\n    w: Dict[str, int] = field(default_factory=dict)\n"
+     "    class Config(BaseConfig):\n        serialization_strategy = {list: {'serialize': _ser}, Annotated[Dict[str, int], 'm']: {'serialize': _ser}}\n",
+     "St", ["St([1, 2])", "St([], [3], {'a': 1}, {'b': 2})"]),
     ("overridden serialization of a nullable field",
      "def _sr(v) -> str:\n    return 's'\n@dataclass\nclass Ov(DataClassDictMixin):\n"
      "    x: Optional[int] = field(metadata=field_options(serialize=_sr))\n    y: int = field(default=1, metadata=field_options(serialize=_sr))\n",
@@ -1067,12 +1069,11 @@ def run_fixed(ctx, descr, src, vals):
                 ctx.count(("fixed", descr, vsrc, dl, ar))
                 if errs:
                     e = errs[0]
-                    kind = {"flag": "flag", "int keys": "nonstr-key", "same name": "bare-name", "strategy by origin key": "strategy-origin",
+                    kind = {"flag": "flag", "int keys": "nonstr-key", "same name": "bare-name",
                             "overridden serialization of a nullable field": "ovr-nullable"}.get(descr)
                     ok_kf = (kind == "flag" and e.validator == "enum" and vsrc == "F.A | F.B") or \
                             (kind == "nonstr-key" and "propertyNames" in list(e.absolute_schema_path) and vsrc == "{1: 'a'}") or \
                             (kind == "bare-name" and ar) or \
-                            (kind == "strategy-origin" and e.validator == "type" and list(e.absolute_path) == ["x"]) or \
                             (kind == "ovr-nullable" and e.validator == "type" and list(e.absolute_path) == ["x"] and vsrc == "Ov(None)")
                     ctx.fail(f"{descr}: {vsrc} rejected: {e.message[:100]}",
                              {"entry": "fixed", "source": src, "dialect": dl, "all_refs": ar, "check": "validate", "value": vsrc,
